@@ -257,22 +257,21 @@ void TensorCopy(tensor* asrc, tensor** adst)
   }
   else{
     if(asrc->order != (*adst)->order){
-      /* resize  the order */
-      (*adst)->m = xrealloc((*adst)->m, sizeof(tensor*)*asrc->order);
+      /* resize  the order: release the matrices beyond the new order, create the missing ones */
+      for(k = asrc->order; k < (*adst)->order; k++){
+        DelMatrix(&(*adst)->m[k]);
+      }
+      (*adst)->m = xrealloc((*adst)->m, sizeof(matrix*)*asrc->order);
+      for(k = (*adst)->order; k < asrc->order; k++){
+        NewMatrix(&(*adst)->m[k], asrc->m[k]->row, asrc->m[k]->col);
+      }
+      (*adst)->order = asrc->order;
     }
 
     /*chek and resize the matrix for each order if is necessary */
     for(k = 0; k < asrc->order; k++){
       if(asrc->m[k]->row != (*adst)->m[k]->row || asrc->m[k]->col != (*adst)->m[k]->col){
-
-        (*adst)->m[k]->row = asrc->m[k]->row;
-        (*adst)->m[k]->col = asrc->m[k]->col;
-
-        (*adst)->m[k]->data = xrealloc((*adst)->m[k]->data, sizeof(double*)*asrc->m[k]->row);
-
-        for(i = 0; i < asrc->m[k]->row; i++){
-          (*adst)->m[k]->data[i] = xrealloc((*adst)->m[k]->data[i], sizeof(double)*asrc->m[k]->col);
-        }
+        ResizeMatrix((*adst)->m[k], asrc->m[k]->row, asrc->m[k]->col);
       }
     }
 
